@@ -16,7 +16,6 @@ import (
 	"time"
 
 	simchannel "perun.network/go-perun/backend/sim/channel"
-	simwallet "perun.network/go-perun/backend/sim/wallet"
 	simwire "perun.network/go-perun/backend/sim/wire"
 	"perun.network/go-perun/channel"
 	"perun.network/go-perun/client"
@@ -64,8 +63,7 @@ func BlobApp(k int) channel.App {
 	mockMu.Lock()
 	defer mockMu.Unlock()
 	for len(blobApps) <= k {
-		rng := kernel.NewRand(kernel.Derive(0xb10b, len(blobApps)))
-		blobApps = append(blobApps, &blobApp{simchannel.AppID{Address: simwallet.NewRandomAddress(rng)}})
+		blobApps = append(blobApps, &blobApp{simchannel.AppID{Address: DetAddress("blob-app", len(blobApps))}})
 	}
 	return blobApps[k]
 }
@@ -92,8 +90,7 @@ func MockApp(k int) channel.App {
 	mockMu.Lock()
 	defer mockMu.Unlock()
 	for len(mockApps) <= k {
-		rng := kernel.NewRand(kernel.Derive(0xa9a, len(mockApps)))
-		mockApps = append(mockApps, channel.NewMockApp(simchannel.AppID{Address: simwallet.NewRandomAddress(rng)}))
+		mockApps = append(mockApps, channel.NewMockApp(simchannel.AppID{Address: DetAddress("mock-app", len(mockApps))}))
 	}
 	return mockApps[k]
 }
